@@ -479,6 +479,9 @@ type c11Stream struct {
 	Wire   []byte
 	Expect []c11Msg
 	Pings  []string // payloads of the Ping frames in Wire, in order
+	// CloseCode > 0: the stream ends with a Close frame carrying this code and CloseReason
+	CloseCode   int
+	CloseReason string
 }
 
 // c11Frame builds one masked client frame by hand (RFC 6455 section 5.2).
@@ -504,13 +507,16 @@ func c11Streams() []c11Stream {
 	long2 := "0123456789abcdefghijklmnopqrstuvwxyzABCD" // 40
 	return []c11Stream{
 		{"hi+yo", cat(c11Frame(true, 1, k1, "hi"), c11Frame(true, 2, k2, "yo!")),
-			[]c11Msg{{false, "hi"}, {true, "yo!"}}, nil},
+			[]c11Msg{{false, "hi"}, {true, "yo!"}}, nil, 0, ""},
 		{"20+40", cat(c11Frame(true, 1, k2, long1), c11Frame(true, 2, k1, long2)),
-			[]c11Msg{{false, long1}, {true, long2}}, nil},
+			[]c11Msg{{false, long1}, {true, long2}}, nil, 0, ""},
 		{"fragmented+ping", cat(c11Frame(false, 1, k1, "he"), c11Frame(true, 9, k3, "p"), c11Frame(true, 0, k2, "llo"), c11Frame(true, 2, k1, long1)),
-			[]c11Msg{{false, "hello"}, {true, long1}}, []string{"p"}},
+			[]c11Msg{{false, "hello"}, {true, long1}}, []string{"p"}, 0, ""},
 		{"pings-first", cat(c11Frame(true, 9, k1, "a"), c11Frame(true, 9, k2, "bb"), c11Frame(true, 1, k3, "hi"), c11Frame(true, 9, k1, ""), c11Frame(true, 2, k2, "yo!")),
-			[]c11Msg{{false, "hi"}, {true, "yo!"}}, []string{"a", "bb", ""}},
+			[]c11Msg{{false, "hi"}, {true, "yo!"}}, []string{"a", "bb", ""}, 0, ""},
+		{"msg+close", cat(c11Frame(true, 1, k1, "hi"), c11Frame(true, 8, k2, "\x03\xe9going")),
+			[]c11Msg{{false, "hi"}}, nil, 1001, "going"},
+		{"close-only", c11Frame(true, 8, k3, "\x0f\xa0x"), nil, nil, 4000, "x"},
 	}
 }
 
@@ -655,6 +661,34 @@ func c11BufOneP(c *fw.Ctx, cs c11BufCase, prop string) {
 		}
 		c.AddTransitions(1)
 	}
+	if st.CloseCode > 0 {
+		// the peer's Close frame is reported and echoed, wherever its bytes were when Accept ran
+		var rerr error
+		if p := fw.Recover(func() { _, _, rerr = conn.Read(ctx) }); p != "" {
+			c.Violate(pc("C11/panic"), fmt.Sprintf("%+v: Read panicked: %s", cs, p), cs)
+			return
+		}
+		var ce websocket.CloseError
+		if !errors.As(rerr, &ce) || int(ce.Code) != st.CloseCode || ce.Reason != st.CloseReason {
+			c.Violate(pc("C11/buffered-close-lost"), fmt.Sprintf("%+v: the stream ends with a Close frame (%d, %q; the first %d bytes of the stream were already buffered when Accept ran); the read returned %v", cs, st.CloseCode, st.CloseReason, cs.K, rerr), cs)
+			return
+		}
+		echoed := false
+		out := fc.out
+		if i := bytes.Index(out, []byte("\r\n\r\n")); i >= 0 {
+			out = out[i+4:]
+		}
+		ofs, _ := frame.ParseAll(out)
+		for _, f := range ofs {
+			if f.Opcode == frame.OpClose && len(f.Payload) >= 2 && int(f.Payload[0])<<8|int(f.Payload[1]) == st.CloseCode {
+				echoed = true
+			}
+		}
+		if !echoed {
+			c.Violate(pc("C11/buffered-close-not-echoed"), fmt.Sprintf("%+v: the peer's Close frame (%d) was reported but not echoed", cs, st.CloseCode), cs)
+			return
+		}
+	}
 	// every Ping of the stream is answered, in order, wherever its bytes were when Accept ran
 	wire := fc.out
 	if i := bytes.Index(wire, []byte("\r\n\r\n")); i >= 0 {
@@ -719,7 +753,7 @@ func init() {
 			c11One(c, cs)
 		},
 	})
-	for _, prop := range []string{"C03", "C15"} {
+	for _, prop := range []string{"C03", "C06", "C15"} {
 		prop := prop
 		fw.Register(fw.Part{
 			Prop: prop, Name: "accepted",
